@@ -99,6 +99,7 @@ type World struct {
 	opTimeout time.Duration
 	cats      map[string]int // coverage counters for the evidence file
 	prop      string         // property the running check is about: panics / hangs are attributed to it
+	dead      bool           // a panic / hang happened: the process is poisoned
 }
 
 func NewWorld(out io.Writer, rng *rand.Rand, u *Universe, cbMask int) *World {
@@ -316,11 +317,13 @@ func (w *World) guard(what string, cat string, fn func()) (ok bool) {
 	case r := <-done:
 		if r != nil {
 			w.emit(Ev{"e": "Panic", "cat": cat + ":panic", "msg": fmt.Sprintf("%s: %v", what, r)})
+			w.dead = true
 			return false
 		}
 		return true
 	case <-time.After(w.opTimeout):
 		w.emit(Ev{"e": "Panic", "cat": cat + ":hang", "msg": fmt.Sprintf("%s did not return within %v", what, w.opTimeout)})
+		w.dead = true
 		return false
 	}
 }
